@@ -93,21 +93,26 @@ def build_fabio(ctx):
 
 # ----------------------------------------------------------------------------- (a) model checking
 def dyn_model_jobs(ctx, par):
-    return {
+    jobs = {
         "A": par.start(ctx.tlc, "DynListeners_MC", cfg_text=dyn_cfg(UA, nchg=ctx.pick(3, 4), nfor=ctx.pick(2, 3)),
-                       workers=ctx.pick(3, 8), timeout=ctx.pick(300, 900), coverage=ctx.thorough),
-        "B": par.start(ctx.tlc, "DynListeners_MC", cfg_text=dyn_cfg(UB, clients=ctx.pick('{"k1"}', '{"k1", "k2"}'), nchg=2, nfor=1),
-                       workers=ctx.pick(3, 8), timeout=ctx.pick(300, 1500), coverage=ctx.thorough),
+                       workers=ctx.pick(3, 6), timeout=ctx.pick(300, 900), coverage=ctx.thorough),
+        "B": par.start(ctx.tlc, "DynListeners_MC", cfg_text=dyn_cfg(UB, clients='{"k1"}', nchg=ctx.pick(2, 3), nfor=ctx.pick(1, 2)),
+                       workers=ctx.pick(3, 6), timeout=ctx.pick(300, 1500), coverage=ctx.thorough),
         "L": par.start(ctx.tlc, "DynListeners_MC", cfg_text=dyn_cfg(UA, nchg=2, nfor=2, rest="INVARIANTS TypeOK\nPROPERTIES EventuallyExact"),
                        workers=2, timeout=600),
         "V": par.start(ctx.tlc, "DynListeners_MC", cfg_text=dyn_cfg(UA, nchg=2, nfor=1, ptb="TRUE"), workers=2, timeout=300),
     }
+    if ctx.thorough:    # two concurrent clients (2 clients with 2 table changes: > 40 M states, not run)
+        jobs["B2"] = par.start(ctx.tlc, "DynListeners_MC", cfg_text=dyn_cfg(UB, clients='{"k1", "k2"}', nchg=1, nfor=1), workers=4, timeout=900)
+    return jobs
 
 
 def dyn_model_results(ctx, jobs):
     ok = True
-    for k, what in (("A", "DynListeners MC (listeners, 3 ports)"), ("B", "DynListeners MC (connections, 2 ports)"),
-                    ("L", "DynListeners liveness EventuallyExact")):
+    for k, what in (("A", "DynListeners MC (listeners, 3 ports)"), ("B", "DynListeners MC (connections, 2 ports, 1 client)"),
+                    ("B2", "DynListeners MC (connections, 2 ports, 2 clients)"), ("L", "DynListeners liveness EventuallyExact")):
+        if k not in jobs:
+            continue
         r = Par.wait(jobs[k])
         ctx.log("%s: %d generated, %d distinct, depth %d, %.0fs" % (what, r.generated, r.distinct, r.depth, r.wall))
         if not ctx.need_tlc_ok(r, what):
@@ -139,36 +144,46 @@ GEN_K = 2
 
 def dyn_gen_jobs(ctx, par, base):
     depth = ctx.pick(7, 10)
+    rest = "CONSTANTS\n  MaxSteps = %d\n  Shape <- %s\nINVARIANTS GenConsistent"
     ex = par.start(ctx.tlc, "DynListeners_Gen", cfg_text=dyn_cfg(UA, spec="GenSpec", clients='{"k1", "k2"}', nchg=0, nfor=0,
-                   rest="CONSTANT MaxSteps = %d\nINVARIANTS GenConsistent" % GEN_K), json_sink=base + ".ex", workers=2, timeout=600)
+                   rest=rest % (GEN_K, "ShapeAny")), json_sink=base + ".ex", workers=2, timeout=600)
+    tun = par.start(ctx.tlc, "DynListeners_Gen", cfg_text=dyn_cfg(UA, spec="GenSpec", clients='{"k1"}', nchg=0, nfor=0,
+                    rest=rest % (4, "ShapeTunnel")), json_sink=base + ".tun", workers=2, timeout=600)
     sim = par.start(ctx.tlc, "DynListeners_Gen", cfg_text=dyn_cfg(UG, spec="GenSpec", clients='{"k1", "k2"}', nchg=0, nfor=0,
-                    rest="CONSTANT MaxSteps = %d\nINVARIANTS GenConsistent" % depth), json_sink=base + ".sim",
-                    simulate=ctx.pick(40, 400), depth=depth + 1, seed=ctx.seed, timeout=600)
-    return ex, sim, depth
+                    rest=rest % (depth, "ShapeAny")), json_sink=base + ".sim",
+                    simulate=ctx.pick(40, 120), depth=depth + 1, seed=ctx.seed, timeout=600)
+    return ex, tun, sim, depth
 
 
 def dyn_histories(ctx, jobs, base):
-    jex, jsim, depth = jobs
-    g, s = Par.wait(jex), Par.wait(jsim)
-    if not ctx.need_tlc_ok(g, "DynListeners Gen"):
+    jex, jtun, jsim, depth = jobs
+    g, t, s = Par.wait(jex), Par.wait(jtun), Par.wait(jsim)
+    if not ctx.need_tlc_ok(g, "DynListeners Gen") or not ctx.need_tlc_ok(t, "DynListeners Gen (tunnel kept across a table change)"):
         return None
     if s.error or s.violated or s.timed_out:
         ctx.need_tlc_ok(s, "DynListeners Gen simulation")
         return None
-    ctx.cover("dyn-gen", states=g.distinct, transitions=g.generated)
+    ctx.cover("dyn-gen", states=g.distinct + t.distinct, transitions=g.generated + t.generated)
     ex = open(base + ".ex").read().splitlines()
+    tun = open(base + ".tun").read().splitlines()
     sim = open(base + ".sim").read().splitlines() if os.path.exists(base + ".sim") else []
     rnd = random.Random(ctx.seed)
-    total_ex = len(ex)
-    cap = ctx.pick(25, 300)
+    total_ex, total_tun = len(ex), len(tun)
+    cap = ctx.pick(25, 150)
     if len(ex) > cap:
         ex = rnd.sample(ex, cap)
-    sim = sim[:ctx.pick(12, 150)]
+    # tunnels: as many that must survive as that must be torn down
+    half = ctx.pick(6, 30)
+    br = [ln for ln in tun if '"broken"' in ln]
+    al = [ln for ln in tun if '"broken"' not in ln]
+    tun = rnd.sample(br, min(half, len(br))) + rnd.sample(al, min(half, len(al)))
+    sim = sim[:ctx.pick(12, 60)]
     with open(base, "w") as fh:
-        for ln in ex + sim:
+        for ln in ex + tun + sim:
             fh.write(ln + "\n")
-    ctx.log("histories: %d of the %d exhaustive ones (%d macro steps), %d simulated (%d macro steps)" % (len(ex), total_ex, GEN_K, len(sim), depth))
-    return len(ex) + len(sim)
+    ctx.log("histories: %d of the %d exhaustive ones (%d macro steps), %d of the %d 'table, keep a tunnel, table, probe it' ones, %d simulated (%d macro steps)"
+            % (len(ex), total_ex, GEN_K, len(tun), total_tun, len(sim), depth))
+    return len(ex) + len(tun) + len(sim)
 
 
 def validate_raw(ctx, trace, ptb="FALSE"):
@@ -367,7 +382,7 @@ def run(ctx):
                              else "in which an unwanted port still accepts after the barrier"))
     if sgo:
         sf_results(ctx, sgo)
-    ctx.cover(rule="(a) histories: a seeded sample of all histories of 2 macro steps over 32 tables x 3 ports plus seeded simulated ones of 7 (quick) / 10 (thorough) "
+    ctx.cover(rule="(a) histories: a seeded sample of all histories of 2 macro steps over 32 tables x 3 ports, a seeded sample of all 'table, keep a tunnel, table, probe it' histories, plus seeded simulated ones of 7 (quick) / 10 (thorough) "
               "macro steps over 64 tables, each step followed by a causality barrier and a comparison of all 6 ip:port pairs; recorded executions validated by TLC; "
               "(b) every case of the StaticFile generator started as a real process", exhaustive=False)
 
